@@ -889,3 +889,354 @@ def rule_W6(ctx):
         else:
             r.neg_control(f["name"], not bad)
     return r
+
+
+# ---------------------------------------------------------------------------------------------------------------------
+# W7  cursor discipline: a storage block's `cursor` (number of used cells) never passes its `size`.
+#     (a) the cursor is only ever advanced by one, shrunk by a subtraction, or advanced by n under a test that n cells fit;
+#     (b) every call of a by-one advancer is preceded, on every path, by the capacity test of THAT block, whose 'full' side
+#         passes through a function that writes the block sizes (the reallocation) before the advance;
+#     (c) the reallocation on that side is handed a grown size of that same block.
+def _is_block_field(place, name):
+    pr = place["p"]
+    return bool(pr) and isinstance(pr[-1], dict) and pr[-1].get("n") == name
+
+
+def _block_of(mir, place):
+    """name of the block a `.cursor`/`.size` place belongs to: the field before it, or the base local for `(*block).cursor`"""
+    pr = [e for e in place["p"] if isinstance(e, dict) and "n" in e]
+    if len(pr) >= 2:
+        return str(pr[-2]["n"])
+    # (*_n).cursor: follow the reference back to `&mut self.X_block`, else the parameter itself
+    for (_b, _s, node, _l) in mirq.origins(mir, place["l"]):
+        if node.get("k") == "Ref":
+            q = [e for e in node["place"]["p"] if isinstance(e, dict) and "n" in e]
+            if q:
+                return str(q[-1]["n"])
+        if node.get("k") == "Param":
+            return "param:%d" % node["index"]
+    return "?"
+
+
+def _reads_field(mir, operand, asg, name, depth=0):
+    """blocks named by `.name` reads this operand derives from through copies"""
+    out = set()
+    pl = mirq.op_place(operand) if isinstance(operand, dict) else None
+    if pl is None:
+        return out
+    if _is_block_field(pl, name):
+        out.add(_block_of(mir, pl))
+        return out
+    if pl["p"] or depth > 6:
+        return out
+    for (_b, si, node, _l) in mirq.origins(mir, pl["l"], asg):
+        if si != "term" and node.get("k") == "Use":
+            out |= _reads_field(mir, node["op"], asg, name, depth + 1)
+    return out
+
+
+def _slice_locals(mir, operand, asg, limit=400):
+    """locals (and params) the value of an operand depends on"""
+    seen = set()
+    work = []
+    pl = mirq.op_place(operand)
+    if pl is not None:
+        work.append(pl["l"])
+    while work and len(seen) < limit:
+        l = work.pop()
+        if l in seen:
+            continue
+        seen.add(l)
+        for (_bi, si, node) in asg.get(l, []):
+            ops = []
+            if si == "term":
+                ops = node.get("args", [])
+            else:
+                k = node.get("k")
+                if k in ("Use", "Cast", "UnaryOp"):
+                    ops = [node.get("op") if k != "UnaryOp" else node.get("e", node.get("op"))]
+                elif k == "BinaryOp":
+                    ops = [node["l"], node["r"]]
+                elif k in ("Ref", "CopyForDeref"):
+                    work.append(node["place"]["l"])
+                elif k == "Aggregate":
+                    ops = node.get("ops", [])
+            for o in ops:
+                if isinstance(o, dict):
+                    p2 = mirq.op_place(o)
+                    if p2 is not None:
+                        work.append(p2["l"])
+    return seen
+
+
+def _touches_block(mir, asg, locals_, blk):
+    """does the definition of one of these locals read or borrow something of block `blk`?"""
+    def has(pl):
+        return any(isinstance(e, dict) and e.get("n") == blk for e in pl["p"])
+    for l in locals_:
+        for (_bi, si, node) in asg.get(l, []):
+            if si == "term":
+                continue
+            k = node.get("k")
+            if k in ("Ref", "CopyForDeref") and has(node["place"]):
+                return True
+            for o in ([node.get("op")] if k in ("Use", "Cast") else [node.get("l"), node.get("r")] if k == "BinaryOp" else []):
+                if isinstance(o, dict):
+                    pl = mirq.op_place(o)
+                    if pl is not None and has(pl):
+                        return True
+    return False
+
+
+def w7_cursor_writes(f):
+    """[(block index, stmt, kind, extra)] for every assignment to a block's cursor; kind in unit/bulk/shrink/reset/arbitrary"""
+    mir = f["mir"]
+    asg = mirq.assignments(mir)
+    out = []
+    for bi, b in enumerate(mir["blocks"]):
+        if b["cleanup"]:
+            continue
+        for s in b["stmts"]:
+            if s["k"] != "Assign" or not _is_block_field(s["place"], "cursor"):
+                continue
+            rv = s["rv"]
+            bop = None
+            if rv["k"] == "BinaryOp":
+                bop = rv
+            elif rv["k"] == "Use":
+                pl = mirq.op_place(rv["op"])
+                if pl is None:
+                    c = rv["op"].get("const", {})
+                    out.append((bi, s, "reset" if c.get("int") == 0 else "arbitrary", None))
+                    continue
+                for (_b, si, node, _l) in mirq.origins(mir, pl["l"], asg):
+                    if si != "term" and node.get("k") == "BinaryOp":
+                        bop = node
+            if bop is None:
+                out.append((bi, s, "arbitrary", None))
+                continue
+            op = bop["op"].replace("WithOverflow", "").replace("Unchecked", "")
+            if op == "Sub":
+                out.append((bi, s, "shrink", None))
+            elif op == "Add":
+                sides = [bop["l"], bop["r"]]
+                cur = [i for i, o in enumerate(sides) if _reads_field(mir, o, asg, "cursor")]
+                if not cur:
+                    out.append((bi, s, "arbitrary", None))
+                    continue
+                other = sides[1 - cur[0]]
+                if "const" in other and other["const"].get("int") == 1:
+                    out.append((bi, s, "unit", None))
+                else:
+                    out.append((bi, s, "bulk", other))
+            else:
+                out.append((bi, s, "arbitrary", None))
+    return out
+
+
+def _capacity_switches(mir, asg, block_name, sum_of=None):
+    """[(block index, true successor, false successor, op, sum_on_left)] SwitchInt blocks testing cursor (or cursor + n) of
+    `block_name` against its size"""
+    out = []
+    for bi, b in enumerate(mir["blocks"]):
+        t = b["term"]
+        if b["cleanup"] or t["k"] != "SwitchInt" or t.get("dty") != "bool":
+            continue
+        l = mirq.op_local(t["discr"])
+        if l is None:
+            continue
+        for (_b, si, node, _l) in mirq.origins(mir, l, asg):
+            if si == "term" or node.get("k") != "BinaryOp" or node["op"] not in ("Ge", "Gt", "Lt", "Le", "Eq", "Ne"):
+                continue
+            def side_kind(o):
+                if block_name in _reads_field(mir, o, asg, "size"):
+                    return "size"
+                if block_name in _reads_field(mir, o, asg, "cursor"):
+                    return "cursor"
+                pl = mirq.op_place(o)
+                if pl is not None and not pl["p"]:
+                    for (_b2, s2, n2, _l2) in mirq.origins(mir, pl["l"], asg):
+                        if s2 != "term" and n2.get("k") == "BinaryOp" and n2["op"].startswith("Add"):
+                            if block_name in (_reads_field(mir, n2["l"], asg, "cursor") | _reads_field(mir, n2["r"], asg, "cursor")):
+                                return "sum"
+                        if s2 != "term" and n2.get("k") == "Use" and isinstance(n2["op"], dict):
+                            p3 = mirq.op_place(n2["op"])
+                            if p3 is not None and p3["p"] and isinstance(p3["p"][-1], dict) and p3["p"][-1].get("n") == "0":
+                                # (sum, overflow).0 of an AddWithOverflow
+                                for (_b4, s4, n4, _l4) in mirq.origins(mir, p3["l"], asg):
+                                    if s4 != "term" and n4.get("k") == "BinaryOp" and n4["op"].startswith("Add") and block_name in (
+                                            _reads_field(mir, n4["l"], asg, "cursor") | _reads_field(mir, n4["r"], asg, "cursor")):
+                                        return "sum"
+                return None
+            kl, kr = side_kind(node["l"]), side_kind(node["r"])
+            if {kl, kr} not in ({"cursor", "size"}, {"sum", "size"}):
+                continue
+            tru = t["otherwise"]
+            fal = next((tg for v, tg in t["targets"] if v == 0), None)
+            out.append((bi, tru, fal, node["op"], kl if kl != "size" else kr, kl != "size"))
+    return out
+
+
+def w7_check_fn_calls(F, scope, advancers, growers):
+    """clause (b)/(c) for every call of a by-one advancer.  Returns (findings, n_sites, wrappers)"""
+    fnd = []
+    n_sites = 0
+    work = list(advancers)
+    seen_adv = set(advancers)
+    while work:
+        adv = work.pop()
+        for g in scope:
+            mir = g["mir"]
+            asg = None
+            for ci, b in enumerate(mir["blocks"]):
+                t = b["term"]
+                if b["cleanup"] or t["k"] != "Call" or adv not in (t.get("def"), t.get("resolved")):
+                    continue
+                asg = asg or mirq.assignments(mir)
+                dom = mirq.dominators(mir)
+                # which block is advanced
+                blk = None
+                for a in t.get("args", []):
+                    pl = mirq.op_place(a)
+                    if pl is None:
+                        continue
+                    for (_b, si, node, _l) in mirq.origins(mir, pl["l"], asg):
+                        if si != "term" and node.get("k") == "Ref":
+                            q = [e for e in node["place"]["p"] if isinstance(e, dict) and "n" in e]
+                            if q and str(q[-1]["n"]).endswith("block"):
+                                blk = str(q[-1]["n"])
+                        if node.get("k") == "Param" and "Block" in (mir["locals"][node["index"]]["ty"] or ""):
+                            blk = blk or ("param:%d" % node["index"])
+                n_sites += 1
+                if blk is None:
+                    fnd.append((g["path"], "advance-of-unknown-block", loc(t), "a cell is pushed at %s but the block whose cursor is advanced cannot be identified" % loc(t)))
+                    continue
+                if blk.startswith("param:"):
+                    # a wrapper: the obligation moves to its callers
+                    if g["path"] not in seen_adv:
+                        seen_adv.add(g["path"])
+                        work.append(g["path"])
+                    continue
+                ok = False
+                grown_ok = False
+                for (di, tru, fal, op, _what, _sl) in _capacity_switches(mir, asg, blk):
+                    if di not in dom.get(ci, set()) and di != ci:
+                        continue
+                    for side in (tru, fal):
+                        if side is None:
+                            continue
+                        def is_grow(bi_, b_):
+                            t_ = b_["term"]
+                            return t_["k"] == "Call" and (t_.get("def") in growers or t_.get("resolved") in growers)
+                        reach = mirq.path_avoiding_to(mir, [side], lambda bi_, b_: False, lambda bi_, b_: bi_ == ci)
+                        if reach is None:
+                            continue
+                        if mirq.path_avoiding_to(mir, [side], is_grow, lambda bi_, b_: bi_ == ci and not is_grow(bi_, b_)) is None:
+                            ok = True
+                            # (c) the growth is of this block: some argument of the reallocation depends on it and is not just
+                            #     a copy of its present size
+                            for gi, gb in enumerate(mir["blocks"]):
+                                if not is_grow(gi, gb) or di not in dom.get(gi, set()):
+                                    continue
+                                for a in gb["term"].get("args", []):
+                                    if blk in _reads_field(mir, a, asg, "size"):
+                                        continue  # the present size, unchanged
+                                    if _touches_block(mir, asg, _slice_locals(mir, a, asg), blk):
+                                        grown_ok = True
+                if not ok:
+                    fnd.append((g["path"], "advance-without-capacity-test:%s" % blk, loc(t), "a cell is pushed to `%s` at %s without a dominating test of that block's cursor against its size whose 'full' side reallocates first: when the block is full the cursor passes its size and the next heap index is out of the block (a panic, or a write into the neighbouring block)" % (blk, loc(t))))
+                elif not grown_ok:
+                    fnd.append((g["path"], "grows-other-block:%s" % blk, loc(t), "the reallocation that guards the push to `%s` at %s is not handed a grown size of that block (no argument derives from it): the block stays full and the push lands outside it" % (blk, loc(t))))
+    return fnd, n_sites, seen_adv - set(advancers)
+
+
+def w7_bulk_ok(f, bi, s, n_operand, growers):
+    """is an advance by n dominated by a test that n cells fit (or by a reallocation sized from n)?"""
+    mir = f["mir"]
+    asg = mirq.assignments(mir)
+    dom = mirq.dominators(mir)
+    blk = _block_of(mir, s["place"])
+    n_locals = _slice_locals(mir, n_operand, asg) if mirq.op_place(n_operand) is not None else set()
+    for (di, tru, fal, op, what, sum_left) in _capacity_switches(mir, asg, blk):
+        if what != "sum" or (di not in dom.get(bi, set()) and di != bi):
+            continue
+        # which side means "does not fit"
+        if op in ("Gt", "Ge"):
+            nofit = tru if sum_left else fal
+        elif op in ("Lt", "Le"):
+            nofit = fal if sum_left else tru
+        else:
+            continue
+        if nofit is None:
+            continue
+        # every way from "does not fit" to the advance goes back through the test ...
+        if mirq.path_avoiding_to(mir, [nofit], lambda b_, _x: b_ == di, lambda b_, _x: b_ == bi) is None:
+            return True
+        # ... or through a reallocation whose size depends on n
+        def grows_for_n(b_, blk_):
+            t_ = blk_["term"]
+            if t_["k"] != "Call" or not (t_.get("def") in growers or t_.get("resolved") in growers):
+                return False
+            for a in t_.get("args", []):
+                if mirq.op_place(a) is not None and (_slice_locals(mir, a, asg) & n_locals):
+                    return True
+            return False
+        if mirq.path_avoiding_to(mir, [nofit], grows_for_n, lambda b_, x_: b_ == bi and not grows_for_n(b_, x_)) is None:
+            return True
+    return False
+
+
+def w7_analyse(F, scope):
+    growers = set()
+    for g in scope:
+        for b in g["mir"]["blocks"]:
+            if b["cleanup"]:
+                continue
+            if any(s["k"] == "Assign" and _is_block_field(s["place"], "size") for s in b["stmts"]):
+                growers.add(g["path"])
+    fnd = []
+    advancers = []
+    kinds = {}
+    for g in scope:
+        for (bi, s, kind, extra) in w7_cursor_writes(g):
+            kinds[kind] = kinds.get(kind, 0) + 1
+            if kind == "unit":
+                advancers.append(g["path"])
+            elif kind == "bulk":
+                if not w7_bulk_ok(g, bi, s, extra, growers):
+                    fnd.append((g["path"], "bulk-advance-unchecked", loc(s), "the cursor of `%s` is advanced by a computed amount at %s without a dominating test that so many cells fit (a test of cursor + n against the size that is re-taken after growing, or a reallocation sized from n): one growth step need not be enough, the cursor passes the size and the next heap index is out of the block" % (_block_of(g["mir"], s["place"]), loc(s))))
+            elif kind == "arbitrary":
+                fnd.append((g["path"], "cursor-set-arbitrary", loc(s), "the cursor of `%s` is assigned a value at %s that is neither cursor + 1, a difference, nor zero" % (_block_of(g["mir"], s["place"]), loc(s))))
+    f2, n_sites, wrappers = w7_check_fn_calls(F, scope, sorted(set(advancers)), growers)
+    fnd.extend(f2)
+    return fnd, {"cursor_writes": kinds, "advancers": sorted(set(advancers)), "wrappers": sorted(wrappers), "growers": sorted(growers), "push_sites": n_sites}
+
+
+def rule_W7(ctx):
+    F = ctx.F
+    r = RuleResult("W7", "cursor discipline: a BasicGarnishData block's cursor is advanced only by one under that block's capacity test (the full side reallocating that block first), by n under a test that n cells fit, or shrunk - so it never passes the block's size")
+    scope = [f for f in F.fns.values() if f["crate"] == "garnish_lang_simple_data" and "::basic::" in f["path"]]
+    fnd, info = w7_analyse(F, scope)
+    r.analysed.update(info)
+    r.floor("functions that advance a block cursor by one", len(info["advancers"]), 1)
+    r.floor("functions that write block sizes (reallocation)", len(info["growers"]), 1)
+    r.floor("guarded push sites", info["push_sites"], 6)
+    for k in range(info["push_sites"]):
+        r.examine(("push-site", k), True, None)
+    seen = set()
+    for p, inst, where, msg in fnd:
+        if (p, inst) in seen:
+            continue
+        seen.add((p, inst))
+        r.finding(p, inst, where, msg)
+    fx = [f for f in F.fns_in("gfixture::round3::w7::")]
+    ffnd, _i = w7_analyse(F, fx)
+    bad_fns = set(p for p, _i2, _w, _m in ffnd)
+    for f in fx:
+        if f["kind"] == "Closure" or not f.get("name", "").startswith(("ctl_", "ok_")):
+            continue
+        if f["name"].startswith("ctl_"):
+            r.control(f["name"], f["path"] in bad_fns)
+        else:
+            r.neg_control(f["name"], f["path"] not in bad_fns)
+    return r
